@@ -13,6 +13,7 @@ from harness.core import Machinery
 from harness.pool import pmap
 
 PROP = "C10"
+IDW_OPS = {"remap_idw_face", "remap_idw_node"}
 CLASSES = ["Elementwise", "Permute", "DropLead", "ResizeLead", "AddLead", "DropGridDim", "ReplaceOnGrid", "Remap", "Dual",
            "Subset", "IndexGridDim", "Copy", "ThroughDataset", "MixedDataset"]
 CONSTS = "CONSTANTS\n MaxDepth = %d\n Broken = %s\n EmitSucc = %s\n"
@@ -140,7 +141,7 @@ def py_failed(ln, a, G, free, e):
     f = set()
     op = ln["op"]
     own = X.base(op, ix) in X.OWN_OPS
-    if ln["out"] == "raised" or (ln["out"] == "refused" and not free) or (ln["out"] == "xr_refused" and own and op not in X.GSEL_OPS):
+    if ln["out"] == "raised" or (ln["out"] == "refused" and not (free or (X.base(op, ix) in IDW_OPS and ln["presize"] < 2))) or (ln["out"] == "xr_refused" and own and op not in X.GSEL_OPS):
         f.add("Raises")
     if ln["val"] == "diff":
         f.add("ValuesAsXarray")
@@ -152,7 +153,7 @@ def py_failed(ln, a, G, free, e):
     newh = len(G) + 1
     gd = [d for d in ln["dims"] if d["k"] in X.GRID_KINDS]
     if isux:
-        if (ln["grid"] not in (a["grid"], newh)) if free else (ln["grid"] != e["grid"]):
+        if (ln["grid"] not in (a["grid"], newh, e["grid"])) if free else (ln["grid"] != e["grid"]):
             f.add("SameGrid")
         if not (all(ln["grid"] != 0 and d["n"] == ln["grid"] for d in gd) and len(gd) <= 1):
             f.add("GridDimsConsistent")
@@ -194,15 +195,16 @@ class Runner:
         self.table_errors = []
 
     def emit(self, tid, init, steps):
-        self.traces.append({"id": tid, "init": {"arr": init[0], "grids": init[1]}, "steps": [{k: v for k, v in s.items() if k != "on"} for s in steps],
-                            "pre_kinds": [s["on"] for s in steps]})
+        self.traces.append({"id": tid, "init": {"arr": init[0], "grids": init[1]}, "steps": [{k: v for k, v in s.items() if k not in ("on", "gl")} for s in steps],
+                            "pre_kinds": [s["on"] for s in steps], "pre_gridlast": [s.get("gl", True) for s in steps]})
 
     def step(self, op, d, mix, ix, node, x, xp, reg, env, a, G):
         """Apply one operation to the real array and the plain mirror; return (line, result, plain result)."""
         hux_ = X.hux.import_ux()
         own = X.base(op, ix) in X.OWN_OPS
         free = node["free"]
-        ln = {"op": op, "d": d, "m": list(mix), "ix": ix, "out": "value", "val": "na", "src": [], "sel": [], "want": [], "wantok": False, "comp": []}
+        ln = {"op": op, "d": d, "m": list(mix), "ix": ix, "out": "value", "val": "na", "src": [], "sel": [], "want": [], "wantok": False, "comp": [],
+              "presize": int(x.sizes[X.grid_dim(x)]) if X.grid_dim(x) is not None else -1}
         gsel = op in X.GSEL_OPS
         r = rp = None
         err = perr = None
@@ -228,7 +230,8 @@ class Runner:
         if err is not None:
             if run_plain and perr is not None:
                 ln["out"] = "xr_refused"
-            elif free:
+            elif free or (X.base(op, ix) in IDW_OPS and ln["presize"] < 2):
+                # (inverse distance weighting needs at least two source elements: a one-element operand is outside its domain)
                 ln["out"] = "refused"
             else:
                 ln["out"] = "raised"
@@ -302,6 +305,7 @@ class Runner:
             failed = py_failed(ln, a, G, free, e)
             line = {k: v for k, v in ln.items() if k not in ("err", "perr", "rtype")}
             line["on"] = root_kind(G, a["grid"])
+            line["gl"] = bool(a["dims"]) and a["dims"][-1]["k"] in X.GRID_KINDS
             steps = seg + [line]
             depth_here = prog.count("/")
             if failed:
@@ -387,6 +391,79 @@ def parse_sim_file(text):
     return out
 
 
+# --------------------------------------------------------------------------- trace validation
+def _check_batch(traces, rt):
+    """Verdicts of one TraceUxOps run + acceptance bookkeeping (every trace consumed all its lines, ended by a refusal on
+    its last line, or was rejected: the number of states TLC visited must be exactly what the verdicts imply)."""
+    rejected, endmarks = {}, {}
+    for v in rt.prints:
+        if isinstance(v, tuple) and len(v) == 4 and v[0] == "R":
+            rejected[v[1]] = (v[2], sorted(map(str, v[3])))
+        elif isinstance(v, tuple) and len(v) == 4 and v[0] == "E":
+            endmarks[v[1]] = v[2]
+    expect_states = (len(traces) + 63) // 64
+    for t in traces:
+        L = len(t["steps"])
+        if t["id"] in rejected:
+            ln = rejected[t["id"]][0]
+            expect_states += ln if ln > 0 else 0
+        elif t["id"] in endmarks:
+            expect_states += endmarks[t["id"]]
+            if endmarks[t["id"]] != L:
+                raise Machinery("trace %s ended before its last line" % t["id"])
+        else:
+            expect_states += 1 + L
+    if rt.distinct != expect_states:
+        raise Machinery("trace validation visited %d states, %d expected from the verdicts" % (rt.distinct, expect_states))
+    return rejected, endmarks
+
+
+def _write_traces(path, traces):
+    with open(path, "w") as fh:
+        for t in traces:
+            fh.write(json.dumps({k: t[k] for k in ("id", "init", "steps")}, separators=(",", ":")) + "\n")
+
+
+def validate_traces(ctx, traces, batch=None):
+    if batch is None or len(traces) <= batch:
+        path = os.path.join(ctx.work, "traces.ndjson")
+        _write_traces(path, traces)
+        if os.environ.get("VERIF_C10_KEEP"):
+            import shutil
+
+            shutil.copy(path, os.environ["VERIF_C10_KEEP"])
+        rt = ctx.tlc_ok("TraceUxOps", TRACE_CFG, what="trace validation: %d recorded traces, %d lines" % (len(traces), sum(len(t["steps"]) for t in traces)),
+                        env={"TRACE_FILE": path}, workers=1, count=False, timeout=3000, heap="8g")
+        return _check_batch(traces, rt)
+    from concurrent.futures import ThreadPoolExecutor
+
+    from harness import tlc as _tlc
+
+    chunks = [traces[i:i + batch] for i in range(0, len(traces), batch)]
+    side = max(1, (int(os.environ.get("VERIF_NPROC", "0")) or min(16, os.cpu_count() or 4)) // 2)
+
+    def one(k):
+        wd = os.path.join(ctx.work, "tv%d" % k)
+        os.makedirs(wd, exist_ok=True)
+        path = os.path.join(wd, "traces.ndjson")
+        _write_traces(path, chunks[k])
+        r = _tlc.run("TraceUxOps", TRACE_CFG, wd, env={"TRACE_FILE": path}, workers=1, timeout=1500, heap="4g")
+        os.remove(path)
+        return k, r
+
+    rejected, endmarks = {}, {}
+    with ThreadPoolExecutor(max_workers=side) as ex:
+        for k, r in ex.map(one, range(len(chunks))):
+            ctx.tlc_runs.append({"module": "TraceUxOps", "what": "trace validation, batch %d/%d: %d recorded traces, %d lines" % (k + 1, len(chunks), len(chunks[k]), sum(len(t["steps"]) for t in chunks[k])),
+                                 "generated": r.generated, "distinct": r.distinct, "depth": r.depth, "wall_s": round(r.wall, 2), "ok": r.ok, "violated": r.violated})
+            if not r.ok:
+                raise Machinery("trace validation batch %d failed: violated=%s rc=%s\n%s" % (k + 1, r.violated, r.rc, r.out[-4000:]))
+            rj, em = _check_batch(chunks[k], r)
+            rejected.update(rj)
+            endmarks.update(em)
+    return rejected, endmarks
+
+
 # --------------------------------------------------------------------------- the check
 def start_id(a):
     return "+".join(q["k"] for q in a["dims"])
@@ -395,13 +472,13 @@ def start_id(a):
 def run(ctx):
     thorough = ctx.tier == "thorough"
     rng = random.Random(ctx.seed)
-    depth = 3 if thorough else 2
+    depth = 2   # both tiers: tables of every state within depth 2; the thorough tier adds simulated programs of depth 3 and 8
     T = lambda b: "TRUE" if b else "FALSE"  # noqa: E731
 
     # 1. the specification on its own (merged with the generation run below)
     # sanity: a wrong operation (shorter grid dim, same grid) is caught by the invariant
     for inv in ("GridDimsConsistent", "DataFollowsGrid"):
-        rb = ctx.tlc("UxOps", BROKEN_CFG % (1, "TRUE", "FALSE", inv), what="UxOps with deliberately broken operations (must violate %s)" % inv, workers=2, count=False)
+        rb = ctx.tlc("UxOps", BROKEN_CFG % (1, "TRUE", "FALSE", inv), what="UxOps with deliberately broken operations (must violate %s)" % inv, workers=2, count=False, timeout=600)
         if rb.violated != inv:
             raise Machinery("the broken-operation variant did not violate %s (got %s)" % (inv, rb.violated))
 
@@ -433,23 +510,7 @@ def run(ctx):
     ctx.note("operations", len(ops_seen))
 
     tries = {}
-    if thorough:
-        for s in starts:
-            tries[s] = full_trie(table, s, 2)
-        cap = 30000
-        total3 = n_by_depth[3]
-        if total3 <= cap:
-            for s in starts:
-                tries[s] = full_trie(table, s, 3)
-            ctx.exhaustive = True
-        else:
-            ws = [count_paths(table, s, 3, memo) for s in starts]
-            for _ in range(cap):
-                s = rng.choices(starts, weights=ws)[0]
-                p = sample_path(table, s, 3, rng, memo)
-                if p:
-                    add_path(tries[s], p)
-    else:
+    if True:
         for s in starts:
             tries[s] = full_trie(table, s, 2)
         ctx.exhaustive = True
@@ -470,23 +531,24 @@ def run(ctx):
     # 2b. long programs from simulation (thorough)
     sim_programs = []
     if thorough:
-        simdir = os.path.join(ctx.work, "sim")
-        os.makedirs(simdir, exist_ok=True)
-        nsim = 400
-        rs = ctx.tlc("UxOps", SIM_CFG % (8, "FALSE", "FALSE"), what="simulation: %d programs of depth 8" % nsim,
-                     simulate="num=%d,file=%s" % (nsim, os.path.join(simdir, "b")), depth=9, seed=ctx.seed + 1, workers=1, count=False, timeout=600)
-        if rs.violated:
-            raise Machinery("simulation run failed: %s" % rs.out[-2000:])
-        for fn in sorted(os.listdir(simdir)):
-            with open(os.path.join(simdir, fn)) as fh:
-                sts = parse_sim_file(fh.read())
-            if len(sts) < 2:
-                continue
-            prog = []
-            for prev, st in zip(sts, sts[1:]):
-                o = st["last"]
-                prog.append((o["op"], o["d"], "+".join(sorted(o.get("m") or [])), o.get("ix", "-"), None, st["arr"], st["grids"], prev["arr"]))
-            sim_programs.append((sts[0]["arr"], sts[0]["grids"], prog))
+        for simdepth, nsim in ((3, 6000), (8, 400)):
+            simdir = os.path.join(ctx.work, "sim%d" % simdepth)
+            os.makedirs(simdir, exist_ok=True)
+            rs = ctx.tlc("UxOps", SIM_CFG % (simdepth, "FALSE", "FALSE"), what="simulation: %d programs of depth %d" % (nsim, simdepth),
+                         simulate="num=%d,file=%s" % (nsim, os.path.join(simdir, "b")), depth=simdepth + 1, seed=ctx.seed + simdepth, workers=1, count=False, timeout=900)
+            if rs.violated:
+                raise Machinery("simulation run failed: %s" % rs.out[-2000:])
+            for fn in sorted(os.listdir(simdir)):
+                with open(os.path.join(simdir, fn)) as fh:
+                    sts = parse_sim_file(fh.read())
+                os.remove(os.path.join(simdir, fn))
+                if len(sts) < 2:
+                    continue
+                prog = []
+                for prev, st in zip(sts, sts[1:]):
+                    o = st["last"]
+                    prog.append((o["op"], o["d"], "+".join(sorted(o.get("m") or [])), o.get("ix", "-"), None, st["arr"], st["grids"], prev["arr"]))
+                sim_programs.append((sts[0]["arr"], sts[0]["grids"], prog))
         if not sim_programs:
             raise Machinery("no simulation behaviours parsed")
 
@@ -551,12 +613,12 @@ def run(ctx):
                            "dims": [{"k": q["k"], "n": q["n"], "size": cnt[q["k"]] if q["k"] in X.GRID_KINDS else q["n"]} for q in ea["dims"]],
                            "g": {"cnt": cnt, "eq": [1] if X.base(op, ix) in X.COPY_OPS else [], "share": [], "mem": [], "leak": []},
                            "src": [0, 1] if X.base(op, ix) in X.SELECT_OPS else [], "sel": [0, 1] if X.base(op, ix) in X.SELECT_OPS else [],
-                           "m": mx_.split("+") if mx_ else [], "ix": "-", "want": [], "wantok": False,
+                           "m": mx_.split("+") if mx_ else [], "ix": "-", "want": [], "wantok": False, "presize": 14,
                            "comp": [{"c": c, "cls": "Ux", "grid": ea["grid"], "src": [0, 1] if c != "c0" else [], "sel": [0, 1] if c != "c0" else [], "val": "eq",
                                      "dims": [{"k": k, "n": ea["grid"] if k in X.GRID_KINDS else X.AUX_LEN[k], "size": cnt[k] if k in X.GRID_KINDS else X.AUX_LEN[k]}
                                               for k in X.COMP_SHAPE[c]]} for c in (mx_.split("+") if mx_ else [])]})
             cur = skey(ea, eG)
-        t = {"id": tid, "init": {"arr": a0, "grids": G0}, "steps": steps0, "pre_kinds": ["base"] * len(ops)}
+        t = {"id": tid, "init": {"arr": a0, "grids": G0}, "steps": steps0, "pre_kinds": ["base"] * len(ops), "pre_gridlast": [True] * len(ops)}
         traces.append(t)
         return t
 
@@ -569,6 +631,7 @@ def run(ctx):
         t["id"] = "corrupt:" + tag
         edit(t["steps"][-1])
         t["pre_kinds"] = bases[base]["pre_kinds"]
+        t["pre_gridlast"] = bases[base]["pre_gridlast"]
         corrupt[t["id"]] = clause
         traces.append(t)
 
@@ -594,39 +657,8 @@ def run(ctx):
     corrupted("mix-gone", "MixedDimsEffect", lambda l: l["comp"].pop(), base="mix")
     corrupted("mix-order", "MixedFollowsGrid", lambda l: l["comp"][1].update(src=[1, 0]), base="mix")
 
-    # 4. TLC validates the recorded traces against UxOps
-    path = os.path.join(ctx.work, "traces.ndjson")
-    with open(path, "w") as fh:
-        for t in traces:
-            fh.write(json.dumps({k: t[k] for k in ("id", "init", "steps")}, separators=(",", ":")) + "\n")
-    if os.environ.get("VERIF_C10_KEEP"):
-        import shutil
-
-        shutil.copy(path, os.environ["VERIF_C10_KEEP"])
-    rt = ctx.tlc_ok("TraceUxOps", TRACE_CFG, what="trace validation: %d recorded traces, %d lines" % (len(traces), sum(len(t["steps"]) for t in traces)),
-                    env={"TRACE_FILE": path}, workers=1, count=False, timeout=3000, heap="8g")
-    rejected, endmarks = {}, {}
-    for v in rt.prints:
-        if isinstance(v, tuple) and len(v) == 4 and v[0] == "R":
-            rejected[v[1]] = (v[2], sorted(map(str, v[3])))
-        elif isinstance(v, tuple) and len(v) == 4 and v[0] == "E":
-            endmarks[v[1]] = v[2]
-    # acceptance bookkeeping: every trace either consumed all its lines, ended by a refusal on its last line, or was rejected
-    nblocks = (len(traces) + 63) // 64
-    expect_states = nblocks
-    for t in traces:
-        L = len(t["steps"])
-        if t["id"] in rejected:
-            ln = rejected[t["id"]][0]
-            expect_states += ln if ln > 0 else 0
-        elif t["id"] in endmarks:
-            expect_states += endmarks[t["id"]]
-            if endmarks[t["id"]] != L:
-                raise Machinery("trace %s ended before its last line" % t["id"])
-        else:
-            expect_states += 1 + L
-    if rt.distinct != expect_states:
-        raise Machinery("trace validation visited %d states, %d expected from the verdicts" % (rt.distinct, expect_states))
+    # 4. TLC validates the recorded traces against UxOps (thorough: in batches of <= 25 000 traces, a few side by side)
+    rejected, endmarks = validate_traces(ctx, traces, batch=25000 if thorough else None)
     for t in bases.values():
         if t["id"] in rejected:
             raise Machinery("binding demonstration: the conforming synthetic trace %s was rejected: %s" % (t["id"], rejected[t["id"]]))
@@ -660,6 +692,9 @@ def run(ctx):
             sig = {"op": step["op"], "on": t["pre_kinds"][ln - 1]}
             if step.get("ix", "-") != "-":
                 sig["ix"] = step["ix"]
+            if X.base(step["op"], step.get("ix", "-")) in set(X.REMAP):
+                # (decided from the specification's state: was the grid dimension the last one?)
+                sig["gridlast"] = bool(t["pre_gridlast"][ln - 1])
             obs = pyv[tid][2] if tid in pyv and pyv[tid][0] == ln else {k: step.get(k) for k in ("cls", "grid", "dims", "g", "comp", "m")}
             if clause.startswith("Mixed"):
                 sig["mix"] = "+".join(step.get("m", []))
@@ -696,5 +731,5 @@ def run(ctx):
         "plain xarray (installed version) is the value oracle for xarray operations",
         "grid handles are assigned by object identity in order of first appearance; a dim's symbolic length is the handle whose count it equals",
         "uxarray's last-axis operators topological_* and remap.* are only prescribed when the grid dim is last; otherwise refusal or any consistent result is accepted (integrate, gradient, difference are prescribed in every position)",
-        "thorough: depth-3 programs are sampled (30000 of the scope) when the scope is larger; depth <= 2 is exhaustive in both tiers",
+        "thorough = the quick tier's programs + 6000 simulated programs of depth 3 + 400 of depth 8 (TLC -simulate, seeded); traces validated in batches of 25000",
     ]
